@@ -25,12 +25,15 @@ ASSUMPTIONS = [a for a in pipeline.PIPELINE_ASSUMPTIONS
     'optionally retagged (free non-core tag or a palette tag), with one '
     'alias: every ordered pair (i, j) of nodes such that i is not an '
     'ancestor of j, including key positions and positions of different '
-    'declared types; two or more aliases are outside the bound',
+    'declared types; two aliases (unretagged) on the small and nested '
+    'models of condition alias2; three or more aliases are outside the '
+    'bound',
     'S3 contract: the composer represents `*a` by the very node object '
     'anchored as `&a` (yaml/composer.py compose_node)',
 ]
 
 NSUB = 3
+N2SUB = 4
 
 
 def _slice(sl):
@@ -101,6 +104,79 @@ def alias_reach(i: int, j: int, rt: int, tag: str) -> bool:
     return not (r[0] and r[1][0] == 'value' and rt == 0)
 
 
+def _acyclic(node, path=()):
+    if any(node is p for p in path):
+        return False
+    if isinstance(node, yaml.SequenceNode):
+        return all(_acyclic(x, path + (node,)) for x in node.value)
+    if isinstance(node, yaml.MappingNode):
+        return all(_acyclic(k, path + (node,)) and _acyclic(v, path + (node,))
+                   for k, v in node.value)
+    return True
+
+
+def _alias2(sl, i, j, i2, j2):
+    """Two aliases: node j IS node i, then -- in the document so obtained --
+    node j2 IS node i2 (either may lie inside the other's anchored node:
+    aliases nested in aliased collections).  Against the same document with
+    every node written out (a deep copy shares nothing)."""
+    si, sub = sl // N2SUB, sl % N2SUB
+    mi, bi, n = BASES[si]
+    if i % N2SUB != sub:
+        return None
+    b = docs.build(MODELS[mi][3][bi])
+    if i >= n or j >= n or i2 >= n or j2 >= n or i == j or i2 == j2:
+        return None
+    if j2 == j or (i2, j2) == (i, j):
+        return None
+    rng = list(range(n))
+    i, j, i2, j2 = pick(rng, i), pick(rng, j), pick(rng, i2), pick(rng, j2)
+    ni, nj = b.nodes[i], b.nodes[j]
+    if is_descendant(nj, ni):
+        return None
+    docs.place(b, j, ni)
+    ni2, nj2 = b.nodes[i2], b.nodes[j2]
+    if not (is_descendant(ni2, b.root) and is_descendant(nj2, b.root)):
+        return None                     # removed by the first alias
+    if ni2 is nj2 or is_descendant(nj2, ni2):
+        return None
+    docs.place(b, j2, ni2)
+    if not _acyclic(b.root):
+        return None
+    expanded = clone(b.root)
+    ra = outcome_sig(*run_load(mi, b.root))
+    if not SYMBOLIC:
+        from vlib.common import LAST
+        note(aliased_text=LAST.get('yaml_text'))
+    re_ = outcome_sig(*run_load(mi, expanded))
+    if not SYMBOLIC:
+        note(model=MODELS[mi][0], base=bi, first_alias=(i, j),
+             second_alias=(i2, j2), aliased=ra, expanded=re_)
+    return ra == re_, ra
+
+
+def alias2(i: int, j: int, i2: int, j2: int) -> bool:
+    """
+    pre: 0 <= i < 12 and 0 <= j < 12 and 0 <= i2 < 12 and 0 <= j2 < 12
+    post: __return__
+    """
+    r = _alias2(slice_no(0), i, j, i2, j2)
+    return True if r is None else r[0]
+
+
+def alias2_reach(i: int, j: int, i2: int, j2: int) -> bool:
+    """
+    pre: 0 <= i < 12 and 0 <= j < 12 and 0 <= i2 < 12 and 0 <= j2 < 12
+    post: __return__
+    """
+    r = _alias2(slice_no(0), i, j, i2, j2)
+    if r is None:
+        return True
+    # witness: the second alias lies inside the node anchored by the first
+    return not (r[0] and r[1][0] == 'value' and i == 1 and j == 4
+                and i2 == 2 and j2 == 3)
+
+
 def _cycles(m, shape):
     from harness.c08_errors import _CYC_MODELS, _cycle_doc
     mi = pipeline.MODEL_IDX[pick(_CYC_MODELS, m)]
@@ -134,7 +210,40 @@ def _slice_for(model, bi, sub=0):
     raise KeyError(model)
 
 
+_NEST = ('nest_path', 'nest_enum', 'nest_sav')
+_SMALL2 = ('top_dict_path', 'top_list_enum', 'top_dict', 'top_any', 'sav')
+ALL2 = [k * N2SUB + s for k, (mi, bi, n) in enumerate(BASES)
+        if (MODELS[mi][0] in _NEST or (MODELS[mi][0] in pipeline.CORE
+                                       and 4 <= n <= 11))
+        for s in range(N2SUB)]
+QUICKS2 = [k * N2SUB + s for k, (mi, bi, n) in enumerate(BASES)
+           if (MODELS[mi][0] in _NEST
+               or (MODELS[mi][0] in _SMALL2 and bi == 0 and n <= 7))
+           for s in range(N2SUB)]
+
+
+def _slice2_for(model, bi, sub=0):
+    for k, (mi, b, n) in enumerate(BASES):
+        if MODELS[mi][0] == model and b == bi:
+            return k * N2SUB + sub
+    raise KeyError(model)
+
+
 CONDITIONS = [
+    {'fn': 'alias2', 'slices': ALL2, 'quick_slices': QUICKS2, 'quick': 110,
+     'thorough': 900,
+     'bound': 'TWO aliases, one slice per (model, base document, i mod 4): '
+              'node j is node i, then node j2 is node i2 of the document so '
+              'obtained, every (i, j, i2, j2) that leaves the document '
+              'acyclic -- so an alias may lie inside a collection that is '
+              'itself aliased, or alias a node that contains an alias --, '
+              'against a deep copy of the same document; models: nested '
+              'collections of Path / enum / savorized-class values and '
+              '(quick) five small core documents, (thorough) every core '
+              'document of 4..11 nodes'},
+    {'fn': 'alias2_reach', 'slices': [_slice2_for('nest_path', 0, 1)],
+     'quick': 100, 'thorough': 100, 'expect': 'REFUTED',
+     'bound': 'reachability twin: [&a [&b x, *b], *a]'},
     {'fn': 'alias', 'slices': ALL, 'quick_slices': QUICKS, 'quick': 110,
      'thorough': 900,
      'bound': 'one slice per (model, base document, i mod 3): every ordered '
